@@ -19,7 +19,13 @@ for P in C03 C04 C05 C06 C08 C10 C11 C12 C16 C20; do
   LLVM_PROFILE_FILE="$W/prof/$P-%p.profraw" VERIF_ROOT=$W/vr ./target/release/xotsim run --property $P --tier quick --jobs 8 --runs $N --no-evidence 2>&1 | grep "exit=" | cut -c1-110
 done
 $B/llvm-profdata merge -sparse prof/*.profraw -o all.profdata
-$B/llvm-cov report ./target/release/xotsim -instr-profile=all.profdata --sources /repo/src 2>/dev/null | awk 'NR<=2 || /rs |TOTAL/ {printf "%-32s regions %5s missed %5s  lines-cover %s\n", $1, $2, $3, $(NF-3)}'
+$B/llvm-cov report ./target/release/xotsim -instr-profile=all.profdata --sources /repo/src 2>/dev/null | python3 -c "
+import sys
+for l in sys.stdin:
+    f=l.split()
+    if len(f)>=10 and (f[0].endswith('.rs') or f[0]=='TOTAL'):
+        print('%-30s lines %5s missed %5s  cover %s' % (f[0], f[7], f[8], f[9]))
+"
 echo
 for f in manipulation.rs nodemap/core.rs nodemap/entry.rs nodemap/attribute.rs nodemap/namespace.rs creation.rs parse.rs encoding.rs entity.rs output/fullname.rs output/xml_serializer.rs output/serializer.rs output/pretty.rs id/idmap.rs fixed.rs; do
   echo "== uncovered lines of $f"
